@@ -19,8 +19,8 @@ Definition as_parser (r : res nat) : res (option nat) := bind r (fun n => Ok (So
 Lemma rejected_rejects : forall (p : string -> res (option nat)) g r, p g = as_parser r -> rejected r -> rejects p g.
 Proof.
   intros p g r E [-> | ->]; unfold rejects; rewrite E; cbn.
-  - exists FormatError. split; [reflexivity | vm_compute; reflexivity].
-  - exists NotImplemented. split; [reflexivity | vm_compute; reflexivity].
+  - left. exists FormatError. split; [reflexivity | vm_compute; reflexivity].
+  - left. exists NotImplemented. split; [reflexivity | vm_compute; reflexivity].
 Qed.
 
 Lemma base_formats_are : base_formats = ["cif"; "discus"; "pdb"; "pdffit"; "rawxyz"; "xcfg"; "xyz"].
